@@ -167,7 +167,7 @@ def judge(case, stats=None):
 
 @st.composite
 def cases(draw, n_ext):
-  design = draw(rtl_gen.designs(index_chain=draw(st.sampled_from([1, 3]))))
+  design = draw(rtl_gen.designs(index_chain=draw(st.sampled_from([1, 3])), ifcs=draw(st.booleans())))
   seq = draw(rtl_gen.input_seqs(design))
   seeds = draw(st.lists(st.integers(0, 2 ** 20), min_size=3, max_size=3))
   return {"design": design, "seq": seq, "seeds": seeds, "n_ext": n_ext}
@@ -182,6 +182,7 @@ def run_shard(ctx):
   def t(case):
     if ctx.out_of_time(): return
     ctx.count()
+    for f_ in rtl_gen.features(case["design"]): ctx.label(f_)
     stats = {}
     v = judge(case, stats)
     dep = has_dependency(case["design"])
